@@ -261,7 +261,10 @@ def miri_run(args, miri_seed, rate, timeout=300):
     weak-memory emulation all derive from -Zmiri-seed)."""
     env = dict(C.ENV)
     env["MIRIFLAGS"] = "-Zmiri-seed=%d -Zmiri-preemption-rate=%s -Zmiri-address-reuse-cross-thread-rate=0 -Zmiri-disable-isolation" % (miri_seed, rate)
-    cmd = ["cargo", "+nightly", "miri", "run", "--offline", "-q", "--"] + args
+    binname = "miriprog"
+    if args and args[0] == "--bin":
+        binname, args = args[1], args[2:]
+    cmd = ["cargo", "+nightly", "miri", "run", "--offline", "-q", "--bin", binname, "--"] + args
     try:
         r = subprocess.run(cmd, cwd=MIRI_DIR, env=env, stdout=subprocess.PIPE, stderr=subprocess.PIPE, text=True, timeout=timeout)
     except subprocess.TimeoutExpired:
@@ -302,7 +305,9 @@ def miri_classify(rc, out, err):
 def miri_build():
     t0 = time.time()
     env = dict(C.ENV)
-    r = subprocess.run(["cargo", "+nightly", "miri", "run", "--offline", "-q", "--", "nothing"], cwd=MIRI_DIR, env=env,
+    subprocess.run(["cargo", "+nightly", "miri", "run", "--offline", "-q", "--bin", "byz", "--", "1", "1", "0", "0"], cwd=MIRI_DIR, env=env,
+                   stdout=subprocess.PIPE, stderr=subprocess.PIPE, text=True, timeout=1200)
+    r = subprocess.run(["cargo", "+nightly", "miri", "run", "--offline", "-q", "--bin", "miriprog", "--", "nothing"], cwd=MIRI_DIR, env=env,
                        stdout=subprocess.PIPE, stderr=subprocess.PIPE, text=True, timeout=1200)
     if r.returncode != 2:
         sys.stderr.write(r.stderr[-4000:])
@@ -352,7 +357,362 @@ def miri_tier(prop, tier, seed, scale):
     return found, cov
 
 
+# ----------------------------------------------------------------------------- C16
+
+C16_CONFIGS_SEQ = (
+    [("vdebug", par, rea) for par in ("even", "odd", "mixed") for rea in ("move", "inplace")]
+    + [("vrelease", par, rea) for par in ("even", "odd", "mixed") for rea in ("move", "inplace")]
+    + [("nostd", "mixed", "mixed"), ("nostd-debug", "odd", "move"), ("xplat", "mixed", "mixed")]
+)
+C16_CONFIGS_BUF = [("vrelease", None, None), ("xplat", None, None)]
+
+
+def _replay_many(engine, variant, path, parity=None, realloc=None):
+    cmd = [C.binpath(variant, engine), "replay-many", path]
+    if parity:
+        cmd += ["--parity", parity]
+    if realloc:
+        cmd += ["--realloc", realloc]
+    r = subprocess.run(cmd, env=C.ENV, stdout=subprocess.PIPE, stderr=subprocess.PIPE, text=True, timeout=900)
+    out = {}
+    for line in r.stdout.splitlines():
+        if line.startswith("{"):
+            try:
+                j = json.loads(line)
+                out[j.get("run")] = j
+            except Exception:
+                pass
+    return r.returncode, out
+
+
+def c16_digests_seq(rec, variant, parity, realloc):
+    """digest list of one recorded program under one configuration (for replay/minimise)"""
+    path = os.path.join(C.JOURNALS, "c16-one-%d.jsonl" % os.getpid())
+    with open(path, "w") as f:
+        f.write(json.dumps({k: rec[k] for k in ("run", "seed", "cfg", "ops", "drop_order") if k in rec}) + "\n")
+    rc, out = _replay_many("seq", variant, path, parity, realloc)
+    if rc != 0 or not out:
+        return ("crash", rc)
+    j = list(out.values())[0]
+    return (j.get("digests", []), [v["kind"] for v in j.get("violations", [])])
+
+
+def c16_differs(rec):
+    a, b = rec["configs"]
+    da = c16_digests_seq(rec, a["variant"], a["parity"], a["realloc"])
+    db = c16_digests_seq(rec, b["variant"], b["parity"], b["realloc"])
+    return da != db, da, db
+
+
+def check_c16(prop, tier, seed, scale=1.0):
+    from concurrent.futures import ThreadPoolExecutor
+    t0 = time.time()
+    runs = int((24000 if tier == "quick" else 1500000) * scale)
+    steps = 40 if tier == "quick" else 120
+    tag = 116
+    for v in ("vdebug", "vrelease"):
+        C.build(v, ("seq", "buf"))
+    C.build("nostd", ("seq",))
+    C.build("nostd-debug", ("seq",))
+    C.build("xplat", ("seq", "buf"))
+    os.makedirs(C.JOURNALS, exist_ok=True)
+    nchunks = max(1, min(C.NCPU * 2, runs // 300 or 1))
+    bounds = [(runs * k) // nchunks for k in range(nchunks + 1)]
+    chunks = [(bounds[k], bounds[k + 1]) for k in range(nchunks) if bounds[k] < bounds[k + 1]]
+    stats = {"programs": 0, "comparisons": 0, "steps": 0, "ref_violations": 0, "buf_programs": 0}
+    mismatches = []
+    samples = []
+    distinct = set()
+
+    def work(ch):
+        a, b = ch
+        res = {"programs": 0, "comparisons": 0, "steps": 0, "mism": [], "ref_viol": 0, "sample": None, "hashes": [], "buf_programs": 0}
+        # --- E-seq: reference = vdebug with the run's own drawn parity/realloc mode
+        for profile, ptag in (("fault", tag), ("mut", tag + 1000)):
+            emit = os.path.join(C.JOURNALS, "c16-seq-%s-%d.jsonl" % (profile, a))
+            jp = os.path.join(C.JOURNALS, "c16-seq-%s-%d.journal" % (profile, a))
+            half_a, half_b = a // 2, b // 2
+            if half_a >= half_b:
+                continue
+            cmd = [C.binpath("vdebug", "seq"), "batch", "--seed", str(seed), "--tag", str(ptag), "--from", str(half_a), "--to", str(half_b),
+                   "--profile", profile, "--steps", str(steps), "--emit", emit, "--journal", jp, "--max-viol", "1000000"]
+            r = subprocess.run(cmd, env=C.ENV, stdout=subprocess.PIPE, stderr=subprocess.PIPE, text=True, timeout=1800)
+            ref = {}
+            try:
+                with open(emit) as f:
+                    for line in f:
+                        j = json.loads(line)
+                        ref[j["run"]] = j
+            except FileNotFoundError:
+                pass
+            if r.returncode != 0:
+                # the reference configuration crashed: C02's business; compare what was emitted
+                pass
+            res["programs"] += len(ref)
+            for j in ref.values():
+                res["steps"] += len(j.get("ops", []))
+                if j.get("violated"):
+                    res["ref_viol"] += 1
+                res["hashes"].append(hash(tuple(j.get("digests", []))) & 0xffffffffffff)
+            if res["sample"] is None and ref:
+                j0 = list(ref.values())[0]
+                res["sample"] = {"run": j0["run"], "cfg": j0["cfg"], "ops": j0["ops"][:12], "digests": j0["digests"][:12]}
+            for (variant, par, rea) in C16_CONFIGS_SEQ:
+                rc, out = _replay_many("seq", variant, emit, par, rea)
+                for run, j in ref.items():
+                    o = out.get(run)
+                    res["comparisons"] += 1
+                    if o is None:
+                        res["mism"].append((run, j, variant, par, rea, -1, "no result (process died, exit %s)" % rc, profile))
+                        continue
+                    da, db = j.get("digests", []), o.get("digests", [])
+                    ka, kb = j.get("vkinds", []), [v["kind"] for v in o.get("violations", [])][:1]
+                    if da != db or ka != kb:
+                        k = 0
+                        while k < min(len(da), len(db)) and da[k] == db[k]:
+                            k += 1
+                        what = "outcome digests differ from step %d on" % k if da != db else "same digests"
+                        if ka != kb:
+                            what += "; oracle verdicts differ: reference %s, other configuration %s" % (ka or "clean", kb or "clean")
+                        res["mism"].append((run, j, variant, par, rea, k, what, profile))
+            for pth in (emit, jp):
+                try:
+                    os.unlink(pth)
+                except OSError:
+                    pass
+        # --- E-buf: typed + write programs (profile/feature dependence of getters/putters)
+        for profile, ptag in (("typed", tag + 2000), ("write", tag + 3000)):
+            emit = os.path.join(C.JOURNALS, "c16-buf-%s-%d.jsonl" % (profile, a))
+            jp = os.path.join(C.JOURNALS, "c16-buf-%s-%d.journal" % (profile, a))
+            cmd = [C.binpath("vdebug", "buf"), "batch", "--seed", str(seed), "--tag", str(ptag), "--from", str(a), "--to", str(b),
+                   "--profile", profile, "--steps", "12", "--emit", emit, "--journal", jp, "--max-viol", "1000000"]
+            subprocess.run(cmd, env=C.ENV, stdout=subprocess.PIPE, stderr=subprocess.PIPE, text=True, timeout=1800)
+            ref = {}
+            try:
+                with open(emit) as f:
+                    for line in f:
+                        j = json.loads(line)
+                        ref[j["run"]] = j
+            except FileNotFoundError:
+                pass
+            res["buf_programs"] += len(ref)
+            for (variant, _, _) in C16_CONFIGS_BUF:
+                rc, out = _replay_many("buf", variant, emit)
+                for run, j in ref.items():
+                    o = out.get(run)
+                    res["comparisons"] += 1
+                    kb = [v["kind"] for v in (o or {}).get("violations", [])][:1]
+                    if o is None or o.get("digest") != j.get("digest") or kb != j.get("vkinds", []):
+                        what = "stream results differ" if o is not None else "no result (exit %s)" % rc
+                        if o is not None and kb != j.get("vkinds", []):
+                            what += "; oracle verdicts differ: reference %s, other configuration %s" % (j.get("vkinds") or "clean", kb or "clean")
+                        jj = dict(j)
+                        jj["engine"] = "buf"
+                        res["mism"].append((run, jj, variant, None, None, 0, what, profile))
+            for pth in (emit, jp):
+                try:
+                    os.unlink(pth)
+                except OSError:
+                    pass
+        return res
+
+    with ThreadPoolExecutor(max_workers=C.NCPU) as ex:
+        for res in ex.map(work, chunks):
+            stats["programs"] += res["programs"]
+            stats["buf_programs"] += res["buf_programs"]
+            stats["comparisons"] += res["comparisons"]
+            stats["steps"] += res["steps"]
+            stats["ref_violations"] += res["ref_viol"]
+            mismatches += res["mism"]
+            distinct.update(res["hashes"])
+            if res["sample"] and len(samples) < 2:
+                samples.append(res["sample"])
+    n_unknown = 0
+    known = C.load_known()
+    if mismatches:
+        mismatches.sort(key=lambda m: (m[0], m[2]))
+        printed = set()
+        unknown = []
+        for m in mismatches:
+            run, j, variant, par, rea, k, what, profile = m
+            op = (j.get("ops") or [{}])[min(max(k, 0), max(len(j.get("ops", [])) - 1, 0))] if j.get("ops") else {}
+            viol = {"props": ["C16"], "kind": "config-divergence", "detail": "%s vs reference vdebug: %s (op %s)" % (variant, what, json.dumps(op)[:120]), "step": max(k, 0)}
+            rec = {"engine": j.get("engine", "seq"), "variant": variant, "ops": j.get("ops", []), "violations": [viol]}
+            kf = C.match_known("C16", rec, viol, known)
+            if kf is not None:
+                if kf["id"] not in printed:
+                    printed.add(kf["id"])
+                    print("KNOWN-FINDING: property=C16 %s" % kf["what"], flush=True)
+                continue
+            unknown.append((m, viol))
+        n_unknown = len(unknown)
+        if unknown:
+            (run, j, variant, par, rea, k, what, profile), viol = unknown[0]
+            rec = {"engine": j.get("engine", "seq"), "c16": True, "profile": profile, "run": run, "seed": j.get("seed"), "cfg": j.get("cfg", {}),
+                   "ops": j.get("ops", []), "drop_order": j.get("drop_order", []), "plan": j.get("plan"),
+                   "configs": [{"variant": "vdebug", "parity": j.get("cfg", {}).get("parity"), "realloc": j.get("cfg", {}).get("realloc")},
+                               {"variant": variant, "parity": par, "realloc": rea}],
+                   "property": "C16", "violation": viol}
+            if rec["engine"] == "seq":
+                try:
+                    m2 = C.minimise("seq", variant, rec, "config-divergence", test=lambda cand: c16_differs(cand)[0])
+                    if m2 is not None:
+                        m2["violation"] = viol
+                        rec = m2
+                        rec["replay_confirmed_in_fresh_process"] = c16_differs(rec)[0]
+                except Exception as e:
+                    C.log("minimise failed: %r" % e)
+            os.makedirs(C.REPLAYS, exist_ok=True)
+            path = os.path.join(C.REPLAYS, "C16-%s-%s-%s.json" % (rec["engine"], j.get("seed", 0), run))
+            C.write_json(path, rec)
+            print("  %s" % viol["detail"][:300], flush=True)
+            print("VIOLATION property=C16 replay=%s" % path, flush=True)
+            print("  (%d diverging (program, configuration) pairs)" % len(unknown), flush=True)
+    wall = time.time() - t0
+    cov = {
+        "evaluations": stats["comparisons"],
+        "distinct_nontrivial": len(distinct),
+        "rule": "one case = one generated program (E-seq histories incl. out-of-contract arguments; E-buf typed reads and writes) replayed op-for-op in another "
+                "configuration and compared by per-step outcome digest (operation, outcome ok/panic, returned bools, per handle len/capacity/content hash/is_unique; no addresses); "
+                "distinct = distinct reference digest sequences; non-trivial = every program (each has >=1 step and is compared in >=2 configurations)",
+        "samples": samples or [{"note": "no sample"}],
+        "programs_seq": stats["programs"],
+        "programs_buf": stats["buf_programs"],
+        "steps": stats["steps"],
+        "simulated_time": "%d operations per configuration" % stats["steps"],
+        "configurations": {"seq": ["%s/%s/%s" % c for c in C16_CONFIGS_SEQ], "buf": [c[0] for c in C16_CONFIGS_BUF], "reference": "vdebug (debug-assertions + overflow-checks on, std), allocator mode drawn per run"},
+        "runs_per_hour": int(stats["comparisons"] / max(wall, 1e-6) * 3600),
+        "seeds": {"root": seed, "tags": [tag, tag + 1000, tag + 2000, tag + 3000]},
+        "reference_runs_with_violation_skipped": stats["ref_violations"],
+        "real_vs_stub": REAL_VS_STUB,
+    }
+    C.write_evidence(prop, tier, seed, "exploration", cov, wall, n_unknown, ASSUME_SEQ + ["digests contain no addresses; capacity is part of the observable result"])
+    print("C16: %d seq + %d buf programs, %d comparisons, %.1fs, violations=%d" % (stats["programs"], stats["buf_programs"], stats["comparisons"], wall, n_unknown), flush=True)
+    return 1 if n_unknown else 0
+
+
+# ----------------------------------------------------------------------------- C17
+
+def check_c17(prop, tier, seed, scale=1.0):
+    from concurrent.futures import ThreadPoolExecutor
+    t0 = time.time()
+    tag = 117
+    runs = max(400, int((300000 if tier == "quick" else 12000000) * scale))
+    variants = ["vdebug", "vrelease"]
+    found, sums, crashes = [], [], 0
+    per_variant = {}
+    for v in variants:
+        C.build(v, ("buf",))
+        r = C.run_batch("buf", v, seed, tag, "byz", runs, 1)
+        found += [(v, rec) for rec in r["violations"]]
+        sums += r["summaries"]
+        crashes += r["crashes"]
+        per_variant[v] = sum(s.get("runs", 0) for s in r["summaries"])
+    # Miri subset: out-of-bounds reads, invalid frees and leaks in the crate show as UB / leak reports
+    miri_build()
+    per_proc = 48
+    n_proc = max(16, int((32 if tier == "quick" else 1200) * scale))
+    jobs = [(i, C.mix_py(seed, tag, i) & 0xffffffff) for i in range(n_proc)]
+
+    def work(job):
+        i, mseed = job
+        rc, out, err = miri_run(["--bin", "byz", str(seed), str(tag), str(i * per_proc), str((i + 1) * per_proc)], mseed, "0.1", timeout=900)
+        n = len([l for l in out.splitlines() if l.startswith("CASE")])
+        return job, rc, out, err, n
+
+    miri_cases = 0
+    with ThreadPoolExecutor(max_workers=C.NCPU) as ex:
+        for job, rc, out, err, n in ex.map(work, jobs):
+            miri_cases += n
+            cls = miri_classify(rc, out, err)
+            if cls is not None:
+                i, mseed = job
+                last = [l for l in out.splitlines() if l.startswith("CASE")][-1:] or ["?"]
+                rec = {"engine": "miri", "profile": "byz", "run": i, "seed": mseed, "cfg": {}, "ops": [],
+                       "miri": {"args": ["--bin", "byz", str(seed), str(tag), str(i * per_proc), str((i + 1) * per_proc)], "seed": mseed, "rate": "0.1"},
+                       "violations": [{"props": ["C17"], "kind": cls[1], "detail": "%s (while running %s)" % (cls[2], last[0]), "step": 0}]}
+                found.append(("miri", rec))
+    n_unknown = handle_violations(prop, "buf", found, tier)
+    tot = C.merge_summaries(sums)
+    wall = time.time() - t0
+    cov = {
+        "evaluations": tot["runs"] + miri_cases,
+        "distinct_nontrivial": len(tot["nontrivial"]),
+        "rule": "one case = (consumer entry point, fault schedule): every (consumer, lie kind, call index 1..8) cell gets runs of its own (index-stratified), plus sampled "
+                "extra lies and later call indices; distinct = distinct (consumer, lies fired) digests; non-trivial = every case (a lying implementation is passed to the crate in each)",
+        "samples": tot["samples"][:2] or [{"consumer": "bytesmut_put", "lies": [{"m": "remaining", "kind": "max", "call": 1}], "note": "case layout; see sim/buf/src/byz.rs gen_case"}],
+        "steps": tot["steps"],
+        "simulated_time": "%d consumer invocations" % tot["steps"],
+        "runs_per_hour": int(tot["runs"] / max(wall, 1e-6) * 3600),
+        "seeds": {"root": seed, "tag": tag},
+        "variants": per_variant,
+        "miri_cases": miri_cases,
+        "fault_counts": {
+            "lies_fired": tot["probes"].get("lies_fired", 0),
+            "cases_with_fired_lie": tot["probes"].get("cases_with_fired_lie", 0),
+            "worker_crashes": crashes,
+            "lie_kinds": "remaining +k/-k/0/usize::MAX/>isize::MAX/panic; chunk empty/shorter/longer/other backing/panic; advance ignored/halved/panic; chunks_vectored none/garbage count/panic; "
+                         "iterator size_hint 0/huge/lower>upper + panic mid-way; owner as_ref panic / different slice per call",
+        },
+        "consumers": "BytesMut::put, Vec::put, default put on &mut [u8] / &mut [MaybeUninit<u8>] / Limit / Chain, put(Take<L>), put(Chain<L,..>), copy_to_bytes, copy_to_slice, try_copy_to_slice, "
+                     "all get_*/try_get_*, Take (chunks_vectored, copy_to_bytes, advance), Chain, Reader (read, fill_buf, consume, read_to_end), IntoIter, from_owner, extend, from_iter, &mut/Box forwarders",
+        "real_vs_stub": REAL_VS_STUB_BUF,
+    }
+    C.write_evidence(prop, tier, seed, "fault_enumeration", cov, wall, n_unknown,
+                     ASSUME_BUF + ["native runs see out-of-bounds writes, wrong frees and leaks (SimAlloc, guard frames); out-of-bounds reads are only seen by the Miri subset",
+                                   "a consumer that loops forever on a liar is stopped by the liar's call budget (a hang is not a memory-safety violation)"])
+    print("C17: %d native cases + %d under Miri, %d lies fired, %.1fs, violations=%d" % (tot["runs"], miri_cases, tot["probes"].get("lies_fired", 0), wall, n_unknown), flush=True)
+    return 1 if n_unknown else 0
+
+
+# ----------------------------------------------------------------------------- C18
+
+def check_c18(prop, tier, seed, scale=1.0):
+    t0 = time.time()
+    tag = 118
+    runs, limit = (4000, 100000) if tier == "quick" else (60000, 1000000)
+    runs = max(100, int(runs * scale))
+    variants = ["vdebug", "vrelease"]
+    found, sums, crashes = [], [], 0
+    per_variant = {}
+    for v in variants:
+        C.build(v, ("seq",))
+        r = C.run_batch("seq", v, seed, tag, "recycle", runs, limit, timeout=900 if tier == "quick" else 7200)
+        found += [(v, rec) for rec in r["violations"]]
+        sums += r["summaries"]
+        crashes += r["crashes"]
+        per_variant[v] = sum(s.get("runs", 0) for s in r["summaries"])
+    n_unknown = handle_violations(prop, "seq", found, tier)
+    tot = C.merge_summaries(sums)
+    wall = time.time() - t0
+    cov = {
+        "evaluations": tot["runs"],
+        "distinct_nontrivial": len(tot["nontrivial"]),
+        "rule": "one case = one balanced periodic refill/consume pattern (period <=16 rounds, message sizes 1..20000, leftover 0..~21000, initial capacity 0..64 KiB, "
+                "consumption by split_to/advance/truncate/copy_to_bytes with or without freeze, round trips through Bytes, unsplit of a split-off tail, retention window 0..5) run for "
+                "warm-up N (adaptive) + 100*N rounds, at most %d; distinct = distinct pattern hash; non-trivial = every pattern (each runs thousands of rounds)" % limit,
+        "samples": tot["samples"][:2] or [{"note": "no sample recorded"}],
+        "steps": tot["steps"],
+        "simulated_time": "%d rounds (refill + consume); history lengths up to %d rounds" % (tot["steps"], limit),
+        "runs_per_hour": int(tot["runs"] / max(wall, 1e-6) * 3600),
+        "seeds": {"root": seed, "tag": tag},
+        "variants": per_variant,
+        "patterns_converged": tot.get("x_converged", 0),
+        "patterns_not_settled_within_limit": tot["runs"] - tot.get("x_converged", 0),
+        "sole_empty_handle_reserve_probes": tot.get("x_sole_reserve_probes", 0),
+        "fault_counts": {"worker_crashes": crashes, "allocator_modes": "parity even/odd/mixed x realloc move/in-place/mixed drawn per pattern"},
+        "real_vs_stub": REAL_VS_STUB,
+    }
+    C.write_evidence(prop, tier, seed, "exploration", cov, wall, n_unknown,
+                     ASSUME_SEQ + ["a correct implementation is eventually periodic on periodic input; patterns that do not settle within the round limit are only reported on a clear upward trend (4x between 1/4 and the end of the run)"])
+    print("C18: %d patterns, %d rounds, %d converged, %.1fs, violations=%d" % (tot["runs"], tot["steps"], tot.get("x_converged", 0), wall, n_unknown), flush=True)
+    return 1 if n_unknown else 0
+
+
 CHECKS = {p: check_seq for p in SEQ}
+CHECKS["C18"] = check_c18
+CHECKS["C16"] = check_c16
+CHECKS["C17"] = check_c17
 CHECKS.update({p: check_buf for p in BUF})
 CHECKS.update({p: check_sched for p in SCHED})
 
@@ -360,11 +720,44 @@ CHECKS.update({p: check_sched for p in SCHED})
 def setup():
     C.build("vdebug", ("seq", "buf"))
     C.build("vrelease", ("seq", "buf"))
+    C.build("nostd", ("seq",))
+    C.build("nostd-debug", ("seq",))
+    C.build("xplat", ("seq", "buf"))
+    C.build_sched("vrelease")
+    miri_build()
 
 
 def replay(prop, path):
     with open(path) as f:
         rec = json.load(f)
+    if rec.get("c16") and rec.get("engine", "seq") == "seq":
+        for c in rec["configs"]:
+            C.build(c["variant"], ("seq",))
+        differs, da, db = c16_differs(rec)
+        print("  configuration A %s -> %s" % (rec["configs"][0], str(da)[:200]))
+        print("  configuration B %s -> %s" % (rec["configs"][1], str(db)[:200]))
+        if differs:
+            print("VIOLATION property=%s replay=%s" % (prop, path))
+            return 1
+        print("replay did not reproduce the divergence", file=sys.stderr)
+        return 2
+    if rec.get("c16") and rec.get("engine") == "buf":
+        res = []
+        path1 = os.path.join(C.JOURNALS, "c16-buf-one-%d.jsonl" % os.getpid())
+        os.makedirs(C.JOURNALS, exist_ok=True)
+        with open(path1, "w") as f:
+            f.write(json.dumps({k: rec[k] for k in ("run", "seed", "profile", "plan", "ops") if k in rec}) + "\n")
+        for c in rec["configs"]:
+            C.build(c["variant"], ("buf",))
+            rc, out = _replay_many("buf", c["variant"], path1)
+            j = list(out.values())[0] if out else {}
+            res.append((j.get("digest"), [v["kind"] for v in j.get("violations", [])][:1]))
+            print("  configuration %s -> digest %s verdict %s" % (c["variant"], res[-1][0], res[-1][1] or "clean"))
+        if res[0] != res[1]:
+            print("VIOLATION property=%s replay=%s" % (prop, path))
+            return 1
+        print("replay did not reproduce the divergence", file=sys.stderr)
+        return 2
     engine = rec.get("engine", "seq")
     variant = rec.get("variant", "vdebug")
     if engine == "miri":
